@@ -758,11 +758,19 @@ pub fn c09_case(c: &mut Ctx, r: &mut Rng, fam: Fam, rp: &RP, case: &Case) {
             s
         }]
     };
-    for s in &scheds {
-        c.count("async.schedules");
+    // every schedule against a plain sink and against a gathering one (is_write_vectored() = true,
+    // vectored writes spend their byte budget across the slices offered, as writev on a socket does)
+    for (s, gather) in scheds.iter().flat_map(|s| [(s, false), (s, true)]) {
+        c.count(if gather { "async.schedules.gathering-sink" } else { "async.schedules" });
         let mut w = ScriptedWriter::new(s);
+        if gather {
+            w = w.gathering();
+        }
         let res = guard(|| enc_async(&lib, &mut w, enc.len() * 2 + s.len() + 16));
-        let scase = || case.clone().p("wschedule", wl::wschedule_text(s));
+        if w.vectored_writes > 0 {
+            c.count("async.vectored-writes-seen");
+        }
+        let scase = || case.clone().p("wschedule", wl::wschedule_text(s)).p("gathering", gather as u64);
         match res {
             Err(p) => c.violation(format!("C09:v{}:{}:async:panic:{}", f, t, panic_sig(&p)), format!("encode_async panicked: {}", p), scase()),
             Ok(Err(e)) => c.violation(format!("C09:v{}:{}:async:stuck", f, t), format!("encode_async did not complete: {:?} (Pending swallowed or invented)", e), scase()),
